@@ -149,6 +149,12 @@ func c02Case(c dirCase, viol func(sig, detail string), r *core.Run) {
 			}
 		}
 		non = append(non, "", "nope")
+		// small sharded directories: one absent name for EVERY bucket of the
+		// root (names with engineered hashes), so that every position of the
+		// root's bitfield, set or clear, stored or trimmed away, is asked for
+		if c.Builder == "sharded" && len(want) <= 2 && c.Fanout > 0 {
+			non = append(non, bucketProbes(c.Fanout)...)
+		}
 	} else {
 		non = []string{"nope", "gen-x", "00gen-0-0", ""}
 	}
@@ -285,6 +291,11 @@ func runC02(r *core.Run) {
 			for _, f := range fanouts {
 				cases = append(cases, dirCase{Builder: "sharded", Fanout: f, Names: names})
 			}
+		} else {
+			// the empty sharded directory, at every fanout
+			for _, f := range fanouts {
+				cases = append(cases, dirCase{Builder: "sharded", Fanout: f, Names: nil})
+			}
 		}
 		if mask < 1024 {
 			cases = append(cases, dirCase{Builder: "auto", Names: names})
@@ -358,4 +369,14 @@ func runC02(r *core.Run) {
 	hashBitsSweep(r)
 	r.Set("universe", trimNames(u))
 	r.Set("deep_universe", du)
+}
+
+// bucketProbes: for fanout f, f names whose murmur3 hash selects root bucket
+// 0, 1, ..., f-1 (precomputed by murmur3 inversion: gen/bucketprobes_data.go).
+func bucketProbes(f int) []string {
+	w := 0
+	for 1<<uint(w) < f {
+		w++
+	}
+	return gen.BucketProbeNames[w]
 }
